@@ -1,0 +1,92 @@
+//! Verification hooks (see /verif/DESIGN.md): compiled only with `--cfg roto_verif`.
+//!
+//! The LIR evaluator and the `LoweredToLir` stage are crate-private; the replay of a
+//! counterexample for the evaluator needs to run `main` of a script through the evaluator
+//! with scalar arguments and see the scalar result.
+
+use crate::{
+    FileTree, NoCtx, Runtime,
+    lir::{IrValue, Memory},
+};
+
+/// A scalar argument or result of an evaluated function
+#[derive(Clone, Debug, PartialEq)]
+pub enum Scalar {
+    /// `bool`
+    Bool(bool),
+    /// `u8`
+    U8(u8),
+    /// `u16`
+    U16(u16),
+    /// `u32`
+    U32(u32),
+    /// `u64`
+    U64(u64),
+    /// `i8`
+    I8(i8),
+    /// `i16`
+    I16(i16),
+    /// `i32`
+    I32(i32),
+    /// `i64`
+    I64(i64),
+    /// `f32`
+    F32(f32),
+    /// `f64`
+    F64(f64),
+}
+
+fn to_ir(s: &Scalar) -> IrValue {
+    match *s {
+        Scalar::Bool(x) => IrValue::Bool(x),
+        Scalar::U8(x) => IrValue::U8(x),
+        Scalar::U16(x) => IrValue::U16(x),
+        Scalar::U32(x) => IrValue::U32(x),
+        Scalar::U64(x) => IrValue::U64(x),
+        Scalar::I8(x) => IrValue::I8(x),
+        Scalar::I16(x) => IrValue::I16(x),
+        Scalar::I32(x) => IrValue::I32(x),
+        Scalar::I64(x) => IrValue::I64(x),
+        Scalar::F32(x) => IrValue::F32(x),
+        Scalar::F64(x) => IrValue::F64(x),
+    }
+}
+
+fn from_ir(v: &IrValue) -> Option<Scalar> {
+    Some(match *v {
+        IrValue::Bool(x) => Scalar::Bool(x),
+        IrValue::U8(x) => Scalar::U8(x),
+        IrValue::U16(x) => Scalar::U16(x),
+        IrValue::U32(x) => Scalar::U32(x),
+        IrValue::U64(x) => Scalar::U64(x),
+        IrValue::I8(x) => Scalar::I8(x),
+        IrValue::I16(x) => Scalar::I16(x),
+        IrValue::I32(x) => Scalar::I32(x),
+        IrValue::I64(x) => Scalar::I64(x),
+        IrValue::F32(x) => Scalar::F32(x),
+        IrValue::F64(x) => Scalar::F64(x),
+        _ => return None,
+    })
+}
+
+/// Lower `tree` and evaluate `pkg.main` with the LIR evaluator.
+///
+/// Returns `Err` with the rendered report if the script does not compile.
+/// Panics exactly where the evaluator panics.
+pub fn eval_main(
+    tree: FileTree,
+    rt: &Runtime<NoCtx>,
+    args: &[Scalar],
+) -> Result<Option<Scalar>, String> {
+    let lowered = tree
+        .parse()
+        .map_err(|e| e.to_string())?
+        .typecheck(rt)
+        .map_err(|e| e.to_string())?
+        .lower_to_mir()
+        .lower_to_lir();
+    let mut mem = Memory::new();
+    let ctx = IrValue::Pointer(mem.allocate(0));
+    let res = lowered.eval(&mut mem, ctx, args.iter().map(to_ir).collect());
+    Ok(res.as_ref().and_then(from_ir))
+}
